@@ -826,8 +826,13 @@ def selfcheck(ns, ctx, with_mpmath):
 # ================================================================================================
 # shards
 # ================================================================================================
+TABLES_EDITED = [False]
+
+
 def run_case(ns, ctx, c, mon):
     k = c['k']
+    if TABLES_EDITED[0] and k in ('atmo', 'disp'):
+        c['after_caller_edited_tables'] = True       # recorded with a witness: a replay fetches and edits the tables first
     if k == 'join':
         judge_join(ns, ctx, c)
     elif k == 'rad':
@@ -858,6 +863,7 @@ def caller_uses_tables(ns, ctx, rnd):
         if g is None:
             continue
         edits += core.caller_edits(list(g) if isinstance(g, (list, tuple)) and rnd.random() < 0.5 else g)
+    TABLES_EDITED[0] = True
     ctx.count('tables_fetched_by_caller_between_reductions')
     ctx.count('in_place_edits_of_fetched_tables', edits)
 
@@ -947,6 +953,8 @@ def replay(case, ctx):
     ns = core.load_repo()
     mon = Mon(ns, ctx)
     try:
+        if case.get('after_caller_edited_tables'):
+            caller_uses_tables(ns, ctx, random.Random('%s-replay' % ID))
         run_case(ns, ctx, case, mon)
     finally:
         mon.close()
